@@ -114,8 +114,19 @@ def build(case, labs):
         if cls == "mixed-u":        # an (empty) undirected layer is present
             layers.append(("undirected", nx.Graph()))
         G = pywhy_nx.MixedEdgeGraph(graphs=[x[1] for x in layers], edge_types=[x[0] for x in layers])
+    late = case.get("late", 0)
     for v in order:
-        G.add_node(labs[v], **copy.deepcopy(ATTRS[case["attrs"][v]]))
+        if late and (v % 2 == 0 or late == 2):
+            # attributes written after the node was created (G.nodes[n][k] = v / set_node_attributes):
+            # they are G's node attributes just as much as those passed to add_node
+            G.add_node(labs[v])
+            if late == 2:
+                nx.set_node_attributes(G, {labs[v]: copy.deepcopy(ATTRS[case["attrs"][v]])})
+            else:
+                for k_, v_ in copy.deepcopy(ATTRS[case["attrs"][v]]).items():
+                    G.nodes[labs[v]][k_] = v_
+        else:
+            G.add_node(labs[v], **copy.deepcopy(ATTRS[case["attrs"][v]]))
     for a, b in g["D"]:
         G.add_edge(labs[a], labs[b], edge_type=dn)
     for a, b in g["B"]:
@@ -359,6 +370,9 @@ def mk_case(rng, g, fam, src, allq, queries, cls="mixed", names=None, attrs=None
             "all": allq, "queries": queries, "cls": cls}
     if names:
         case["names"] = names
+    r = rng.random()
+    if r < 0.3:
+        case["late"] = 1 if r < 0.2 else 2
     return case
 
 
@@ -433,7 +447,7 @@ def _drop_node(case, v):
 
 def shrink10(case, fails, max_rounds=200):
     cur = copy.deepcopy(case)
-    for k, val in (("cls", "mixed"), ("names", None), ("gattr", None)):
+    for k, val in (("cls", "mixed"), ("names", None), ("gattr", None), ("late", None)):
         if cur.get(k) not in (None, val):
             c = copy.deepcopy(cur)
             if val is None:
